@@ -142,6 +142,17 @@ func c17Calls(r *rand.Rand) []c17Call {
 	var calls []c17Call
 	spdxDoc, _ := gen.SPDXDoc(r, r.Intn(1000), 6)
 	cdxDoc, _, _ := gen.CDXTree(r, r.Intn(1000), 15, 6)
+	// two further SPDX documents that differ in everything that ends up in the document header (tools, authors,
+	// name, comment): overlapping writes must not mix them
+	hdrDocs := []*sbom.Document{}
+	for i := 0; i < 2; i++ {
+		d, _ := gen.SPDXDoc(r, r.Intn(1000), 4)
+		d.Metadata.Name = fmt.Sprintf("header-doc-%d", i)
+		d.Metadata.Comment = fmt.Sprintf("comment-of-%d", i)
+		d.Metadata.Tools = []*sbom.Tool{{Name: fmt.Sprintf("tool-a-of-%d", i), Version: "1"}, {Name: fmt.Sprintf("tool-b-of-%d", i), Version: "2"}}
+		d.Metadata.Authors = []*sbom.Person{{Name: fmt.Sprintf("author-of-%d", i)}}
+		hdrDocs = append(hdrDocs, d)
+	}
 	spdxBytes, _ := writeDoc(spdxDoc, formats.SPDX23JSON, 2)
 	cdxBytes, _ := writeDoc(cdxDoc, formats.CDX15JSON, 2)
 	tv23 := []byte("SPDXVersion: SPDX-2.3\nDataLicense: CC0-1.0\nSPDXID: SPDXRef-DOCUMENT\nDocumentName: x\n" + strings.Repeat("PackageName: p\n", 20))
@@ -185,6 +196,23 @@ func c17Calls(r *rand.Rand) []c17Call {
 			}
 			return normOut(buf.Bytes(), err)
 		}})
+	}
+	for i, d := range hdrDocs {
+		i, d := i, d
+		for _, f := range []formats.Format{formats.SPDX23JSON, formats.CDX15JSON} {
+			f := f
+			calls = append(calls, c17Call{fmt.Sprintf("write-header-doc-%d:%s", i, f), func() string {
+				var buf bytes.Buffer
+				w := writer.New(writer.WithFormat(f))
+				err := w.WriteStream(gen.Clone(d), nopWC{&buf})
+				// the other document's header texts must not appear in this one's output
+				other := fmt.Sprintf("-of-%d", 1-i)
+				if err == nil && bytes.Contains(buf.Bytes(), []byte(other)) {
+					return "FOREIGN-HEADER-TEXT"
+				}
+				return normOut(buf.Bytes(), err)
+			}})
+		}
 	}
 	// SPDX writes that differ in their render options: each must come out with its own indentation
 	for _, ind := range []int{0, 1, 3, 7} {
